@@ -235,7 +235,7 @@ REGISTRY = {
         "assumptions": COMMON_ASSUMPTIONS,
     },
     "C04": {
-        "rules": [order.rule_gauge_order_binding, iso.rule_iso_invalidate, iso.rule_iso_claim, iso.rule_gauge_record_agree, iso.rule_merge_collapses_holders, iso.rule_exp_compensate, iso.rule_strip_member, exponent.rule_view_accrual,
+        "rules": [order.rule_gauge_order_binding, iso.rule_iso_invalidate, iso.rule_flag_setter_total, iso.rule_iso_claim, iso.rule_gauge_record_agree, iso.rule_merge_collapses_holders, iso.rule_exp_compensate, iso.rule_strip_member, exponent.rule_view_accrual,
                   functools.partial(inplace.rule_inplace_effect, family=iso.rewrite_family, rule="inplace-effect[rewrites]", floor=40, controls=0)],
         "explanation": (
             "static: decides (a) the isometry flag left_inds as a typestate — dropped by every data write, low-level "
@@ -249,7 +249,7 @@ REGISTRY = {
         "assumptions": COMMON_ASSUMPTIONS,
     },
     "C08": {
-        "rules": [record.rule_record, record.rule_absorb_keyed, record.rule_clients, record.rule_record_consumers, iso.rule_iso_claim, iso.rule_iso_invalidate],
+        "rules": [record.rule_record, record.rule_record_written, iso.rule_flag_setter_total, record.rule_absorb_keyed, record.rule_clients, record.rule_record_consumers, iso.rule_iso_claim, iso.rule_iso_invalidate],
         "explanation": (
             "static (typestate-style rules over the record-aware functions of tn1d/core.py and their circuit "
             "clients): decides that the canonical-form record is threaded to every record-aware callee, is only "
